@@ -4,7 +4,7 @@
 
    Entry fields (proto3, a field is encoded only when non-default):
      1 entry_type (enum, varint)   2 term (uint64)   3 index (uint64)
-     4 data (bytes)   6 context (bytes)   5 sync_log (bool, deprecated)
+     4 data (bytes)   6 context (bytes)   5 sync_log (bool, deprecated, not modelled)
    All field numbers are < 16, so every tag is one byte.
    Model assumptions (documented, not checked): [unknown_fields] is empty
    (entries built in memory never carry any) and byte lengths are < 2^32, so the
@@ -14,13 +14,14 @@ From RV Require Import Base.Prelude.
 
 Local Open Scope N_scope.
 
+(* The deprecated [sync_log] field (5, bool, costs 2 bytes when true) is never
+   set by raft-rs; it is assumed false and not modelled. *)
 Record entry := mkEntry {
+  e_type : N;             (* 0 EntryNormal, 1 EntryConfChange, 2 EntryConfChangeV2 *)
   e_term : N;
   e_index : N;
-  e_type : N;             (* 0 EntryNormal, 1 EntryConfChange, 2 EntryConfChangeV2 *)
-  e_data : list N;        (* bytes *)
-  e_context : list N;     (* bytes *)
-  e_sync_log : bool       (* deprecated field 5; false everywhere in raft-rs *)
+  e_data : list N;        (* bytes, each < 256 *)
+  e_context : list N      (* bytes, each < 256 *)
 }.
 
 (* protobuf::rt::compute_raw_varint64_size *)
@@ -54,8 +55,11 @@ Definition entry_size (e : entry) : N :=
   + varint_field_size (e_term e)
   + varint_field_size (e_index e)
   + bytes_field_size (e_data e)
-  + bytes_field_size (e_context e)
-  + (if e_sync_log e then 2 else 0).
+  + bytes_field_size (e_context e).
+
+(* util::entry_approximate_size *)
+Definition entry_approximate_size (e : entry) : N :=
+  N.of_nat (length (e_data e)) + N.of_nat (length (e_context e)) + 12.
 
 Definition NO_LIMIT : N := u64_max.
 
